@@ -965,6 +965,27 @@ def index_strategy(
         strategy = strategy.map(lambda index: index.rename(name))
     if nullable:
         strategy = null_field_masks(strategy)
+
+    for check in checks if checks is not None else []:
+        # for checks with undefined built-in or custom strategies that are
+        # vectorized, apply check function to the entire index, which is
+        # validated as a series.
+        if (
+            check.strategy is None
+            and not STRATEGY_DISPATCHER.get((check.name, pd.Series))
+            and not check.element_wise
+        ):
+            warnings.warn(
+                "Vectorized check doesn't have a defined strategy. "
+                "Falling back to filtering drawn values based on the check "
+                "definition. This can considerably slow down data-generation."
+            )
+            strategy = strategy.filter(
+                # pylint: disable=cell-var-from-loop
+                lambda index, check=check: check(
+                    index.to_series().reset_index(drop=True)
+                ).check_passed
+            )
     return strategy
 
 
@@ -1262,4 +1283,21 @@ def multiindex_strategy(
 
     if any(nullable_index.values()):
         strategy = null_dataframe_masks(strategy, nullable_index)
+
+    for i, index in enumerate(indexes):
+        level = index.name if index.name is not None else i
+        for check in index.checks if index.checks is not None else []:
+            # vectorized checks with undefined strategies are applied to the
+            # whole level, like in series_strategy
+            if (
+                check.strategy is None
+                and not STRATEGY_DISPATCHER.get((check.name, pd.Series))
+                and not check.element_wise
+            ):
+                strategy = strategy.filter(
+                    # pylint: disable=cell-var-from-loop
+                    lambda df, level=level, check=check: check(
+                        df[level]
+                    ).check_passed
+                )
     return strategy.map(pd.MultiIndex.from_frame)
